@@ -140,7 +140,7 @@ impl StunMessageTimeout {
 //@end
 //@item stun_agent :: mod timeout > impl StunMessageTimeout > fn next_timeout
 //@tags C11 C06
-//@before "if let Some(item) = self.timeouts.peek()"
+//@head
     proof {
         self.timeouts@.to_multiset_ensures();
         if self.timeouts@.len() > 0 {
@@ -170,7 +170,7 @@ impl StunMessageTimeout {
     requires old(self).wf(),
     ensures final(self).wf(),
         exists|removed: Seq<TimeoutItem>| check_post(old(self).ms(), final(self).ms(), removed, r@, instant.ns@),
-//@before "while let Some(item)"
+//@before "while let"
     let ghost mut removed: Seq<TimeoutItem> = Seq::empty();
     proof {
         broadcast use vstd::seq_lib::group_to_multiset_ensures;
@@ -189,7 +189,7 @@ impl StunMessageTimeout {
     ensures
         forall|y: TimeoutItem| self.ms().count(y) > 0 ==> y.expiry() > instant.ns@,
     decreases self.timeouts@.len(),
-//@before "if item.0.instant + item.0.timeout <= instant"
+//@loopstart 1
     let ghost top = self.timeouts@[0];
     let ghost ms0 = self.ms();
     proof {
@@ -218,6 +218,212 @@ impl StunMessageTimeout {
         assert(check_post(old(self).ms(), self.ms(), removed, expired@, instant.ns@));
     }
 //@end
+}
+
+// ---------------------------------------------------------------- retransmission schedule (RFC 8489 6.2.1)
+pub open spec fn pow2i(k: int) -> int
+    decreases k
+{ if k <= 0 { 1 } else { 2 * pow2i(k - 1) } }
+pub open spec fn lg(n: int) -> int
+    decreases n
+{ if n <= 1 { 0 } else { 1 + lg(n / 2) } }
+proof fn lemma_lg_pow2(k: int)
+    requires k >= 0,
+    ensures lg(pow2i(k)) == k, pow2i(k) >= 1, pow2i(k + 1) == 2 * pow2i(k),
+    decreases k,
+{
+    if k > 0 {
+        lemma_lg_pow2(k - 1);
+        assert(pow2i(k) / 2 == pow2i(k - 1));
+    }
+}
+proof fn lemma_pow2_bound(k: int)
+    requires 0 <= k <= 31,
+    ensures pow2i(k) <= 0x8000_0000,
+    decreases 31 - k,
+{
+    if k < 31 { lemma_pow2_bound(k + 1); } else { assert(pow2i(31) == 0x8000_0000) by (compute); }
+}
+// interval j (0-based) and the time of the (j+1)-th event relative to the first transmission:
+// RTO, 2RTO, 4RTO ... and Rm*RTO for the last one (RFC 8489 section 6.2.1), written from the RFC text
+pub open spec fn ivl(rtt: int, rm: int, rc: int, j: int) -> int {
+    if j == rc - 1 { rtt * rm } else { rtt * pow2i(j) }
+}
+pub open spec fn sched(rtt: int, rm: int, rc: int, j: int) -> int
+    decreases j
+{ if j <= 0 { 0 } else { sched(rtt, rm, rc, j - 1) + ivl(rtt, rm, rc, j - 1) } }
+
+//@item! stun_agent :: mod timeout > struct RtoCalculator
+impl RtoCalculator {
+    // number of intervals handed out so far / configured Rc, as functions of the state
+    pub open spec fn j(&self) -> int { lg(self.rm as int) }
+    pub open spec fn cfg_rc(&self) -> int { self.j() + self.rc }
+    pub open spec fn wf(&self) -> bool {
+        self.rm as int == pow2i(self.j()) && self.cfg_rc() <= 31 && self.rtt.ns@ >= 0
+    }
+//@item stun_agent :: mod timeout > impl RtoCalculator > fn new
+//@tags C06
+//@spec
+    requires rc <= 31, rtt.ns@ >= 0,
+    ensures r.wf(), r.j() == 0, r.cfg_rc() == rc, r.rtt == rtt, r.last_rm == last_rm, r.rc == rc, r.rm == 1,
+//@before "Self { rtt, rm: 1, rc, last_rm }"
+    proof { assert(lg(1) == 0); assert(pow2i(0) == 1); }
+//@end
+//@item stun_agent :: mod timeout > impl RtoCalculator > fn next_rto
+//@tags C06
+//@spec
+    requires old(self).wf(),
+    ensures final(self).wf(),
+        final(self).rtt == old(self).rtt, final(self).last_rm == old(self).last_rm,
+        final(self).cfg_rc() == old(self).cfg_rc(),
+        old(self).rc == 0 ==> r is None && *final(self) == *old(self),
+        old(self).rc > 0 ==> r is Some && final(self).j() == old(self).j() + 1 && final(self).rc == old(self).rc - 1
+            && r->Some_0.ns@ == ivl(old(self).rtt.ns@, old(self).last_rm as int, old(self).cfg_rc(), old(self).j()),
+//@head
+    proof {
+        lemma_lg_pow2(self.j());
+        lemma_pow2_bound(self.j());
+        if self.rc > 0 { lemma_pow2_bound(self.j() + 1); lemma_lg_pow2(self.j() + 1); }
+    }
+//@end
+}
+
+//@item! stun_agent :: mod timeout > struct RtoManager
+impl RtoManager {
+    pub open spec fn rtt(&self) -> int { self.calculator.rtt.ns@ }
+    pub open spec fn rm(&self) -> int { self.calculator.last_rm as int }
+    pub open spec fn rc(&self) -> int { self.calculator.cfg_rc() }
+    pub open spec fn j(&self) -> int { self.calculator.j() }
+    // deadline of the interval in progress, and the instant of the first transmission it implies
+    pub open spec fn deadline(&self) -> int { self.latest->Some_0.ns@ + self.last_rto.ns@ }
+    pub open spec fn origin(&self) -> int { self.deadline() - sched(self.rtt(), self.rm(), self.rc(), self.j()) }
+    pub open spec fn at(&self, k: int) -> int { self.origin() + sched(self.rtt(), self.rm(), self.rc(), k) }
+    pub open spec fn wf(&self) -> bool {
+        &&& self.calculator.wf()
+        &&& self.last_rto.ns@ >= 0
+        &&& (self.latest is Some ==> self.j() >= 1)
+        &&& (self.latest is None ==> self.j() == 0 || self.calculator.rc == 0)
+    }
+//@item stun_agent :: mod timeout > impl RtoManager > fn new
+//@tags C06
+//@spec
+    requires rc <= 31, rtt.ns@ >= 0,
+    ensures r.wf(), r.latest is None, r.j() == 0, r.rc() == rc, r.rtt() == rtt.ns@, r.rm() == rm as int,
+//@end
+//@item stun_agent :: mod timeout > impl RtoManager > fn next_rto
+//@tags C06 C11
+//@spec
+    requires old(self).wf(),
+    ensures final(self).wf(),
+        final(self).rtt() == old(self).rtt(), final(self).rm() == old(self).rm(), final(self).rc() == old(self).rc(),
+        // first transmission: the first interval starts now
+        (old(self).latest is None && old(self).calculator.rc > 0) ==> r is Some && final(self).latest == Some(instant)
+            && final(self).j() == old(self).j() + 1
+            && r->Some_0.ns@ == ivl(old(self).rtt(), old(self).rm(), old(self).rc(), old(self).j())
+            && final(self).last_rto == r->Some_0,
+        (old(self).latest is None && old(self).calculator.rc == 0) ==> r is None && final(self).latest is None,
+        // timer call while an interval is in progress
+        old(self).latest is Some ==> {
+            let t0 = old(self).origin();
+            let d = old(self).deadline();
+            // early: same slot, same deadline
+            &&& (instant.ns@ < d ==> r is Some && final(self).j() == old(self).j() && final(self).deadline() == d
+                    && final(self).latest == Some(instant) && final(self).last_rto == r->Some_0)
+            // on time or late: the next slot whose time is still ahead; every slot before it has passed;
+            // the origin (hence every later deadline) is not shifted
+            &&& (instant.ns@ >= d && r is Some ==> final(self).latest == Some(instant) && final(self).last_rto == r->Some_0
+                    && final(self).origin() == t0
+                    && old(self).j() < final(self).j() <= old(self).rc()
+                    && final(self).deadline() > instant.ns@
+                    && final(self).deadline() == t0 + sched(old(self).rtt(), old(self).rm(), old(self).rc(), final(self).j())
+                    && (forall|k: int| old(self).j() <= k < final(self).j() ==>
+                        t0 + #[trigger] sched(old(self).rtt(), old(self).rm(), old(self).rc(), k) <= instant.ns@))
+            // exhausted: exactly when the last deadline t0 + S(Rc) has passed
+            &&& (instant.ns@ >= d && r is None ==> final(self).latest is None && final(self).calculator.rc == 0
+                    && t0 + sched(old(self).rtt(), old(self).rm(), old(self).rc(), old(self).rc()) <= instant.ns@)
+            &&& (instant.ns@ >= d && t0 + sched(old(self).rtt(), old(self).rm(), old(self).rc(), old(self).rc()) > instant.ns@ ==> r is Some)
+        },
+//@before "let mut next_timeout"
+    let ghost t0 = self.origin();
+    let ghost j0 = self.j();
+    let ghost rtt = self.rtt();
+    let ghost rm = self.rm();
+    let ghost rc = self.rc();
+//@loop 1
+    invariant
+        self.calculator.wf(),
+        self.rtt() == rtt, self.rm() == rm, self.rc() == rc,
+        self.last_rto.ns@ >= 0,
+        j0 >= 1,
+        j0 <= self.j() <= rc,
+        next_timeout.ns@ == t0 + sched(rtt, rm, rc, self.j()),
+        next_timeout.ns@ <= instant.ns@,
+        forall|k: int| j0 <= k <= self.j() ==> t0 + #[trigger] sched(rtt, rm, rc, k) <= instant.ns@,
+        self.latest == old(self).latest,
+        t0 == old(self).origin(), j0 == old(self).j(), rtt == old(self).rtt(), rm == old(self).rm(), rc == old(self).rc(),
+        old(self).latest is Some, instant.ns@ >= old(self).deadline(),
+    ensures
+        self.calculator.rc == 0,
+        self.j() == rc,
+    decreases self.calculator.rc,
+//@end
+}
+
+// ---- C06: the schedule in closed form, and the documented defaults
+// props: C06
+proof fn lemma_sched_closed(rtt: int, rm: int, rc: int, j: int)
+    requires 0 <= j, j <= rc - 1,
+    ensures sched(rtt, rm, rc, j) == (pow2i(j) - 1) * rtt,
+    decreases j,
+{
+    if j > 0 {
+        lemma_sched_closed(rtt, rm, rc, j - 1);
+        let a = pow2i(j - 1);
+        assert(pow2i(j) == 2 * a);
+        assert(ivl(rtt, rm, rc, j - 1) == rtt * a);
+        assert(sched(rtt, rm, rc, j) == sched(rtt, rm, rc, j - 1) + ivl(rtt, rm, rc, j - 1));
+        assert((a - 1) * rtt + rtt * a == (2 * a - 1) * rtt) by (nonlinear_arith);
+    } else {
+        assert(pow2i(0) == 1);
+        assert(sched(rtt, rm, rc, 0) == 0);
+        assert((1 - 1) * rtt == 0);
+    }
+}
+// props: C06
+proof fn lemma_sched_deadline(rtt: int, rm: int, rc: int)
+    requires rc >= 1,
+    ensures sched(rtt, rm, rc, rc) == (pow2i(rc - 1) - 1 + rm) * rtt,
+{
+    lemma_sched_closed(rtt, rm, rc, rc - 1);
+    assert((pow2i(rc - 1) - 1) * rtt + rtt * rm == (pow2i(rc - 1) - 1 + rm) * rtt) by (nonlinear_arith);
+}
+// props: C06
+proof fn lemma_sched_defaults()
+    ensures
+        sched(500, 16, 7, 0) == 0, sched(500, 16, 7, 1) == 500, sched(500, 16, 7, 2) == 1500,
+        sched(500, 16, 7, 3) == 3500, sched(500, 16, 7, 4) == 7500, sched(500, 16, 7, 5) == 15500,
+        sched(500, 16, 7, 6) == 31500, sched(500, 16, 7, 7) == 39500,
+{
+    lemma_sched_deadline(500, 16, 7);
+    lemma_sched_closed(500, 16, 7, 6); lemma_sched_closed(500, 16, 7, 5); lemma_sched_closed(500, 16, 7, 4);
+    lemma_sched_closed(500, 16, 7, 3); lemma_sched_closed(500, 16, 7, 2); lemma_sched_closed(500, 16, 7, 1);
+    lemma_sched_closed(500, 16, 7, 0);
+    assert(pow2i(6) == 64 && pow2i(5) == 32 && pow2i(4) == 16 && pow2i(3) == 8 && pow2i(2) == 4 && pow2i(1) == 2 && pow2i(0) == 1) by (compute);
+}
+// reliable transport: RtoManager::new(timeout, 1, 1) -- one transmission, failure exactly at t0 + timeout
+// props: C06
+proof fn lemma_sched_reliable(t: int)
+    ensures sched(t, 1, 1, 1) == t,
+{
+    assert(sched(t, 1, 1, 1) == sched(t, 1, 1, 0) + ivl(t, 1, 1, 0));
+    assert(t * 1 == t);
+}
+//@item! stun_agent :: mod timeout > const DEFAULT_RC
+//@item! stun_agent :: mod timeout > const DEFAULT_RM
+// props: C06
+proof fn lemma_default_constants()
+    ensures DEFAULT_RC == 7, DEFAULT_RM == 16,
+{
 }
 proof fn vx_sentinel() ensures false {}
 } // verus!
